@@ -49,10 +49,13 @@ build() {
 case "${1:-}" in
   setup)
     build
-    # the interpreter's standard library for the big-endian machine of S5 (becheck): built once,
+    # the interpreter's standard library for the machines of S5 (becheck: big-endian, 32-bit): built once,
     # offline, from the nightly toolchain's rust-src; without it S5 is skipped with a note
-    (cd "$ROOT/becheck" && cargo +nightly miri setup --target s390x-unknown-linux-gnu >"$ROOT/becheck/setup.log" 2>&1) || \
-      echo "note: no Miri sysroot for s390x; the big-endian check (S5) will be skipped" >&2
+    : >"$ROOT/becheck/setup.log"
+    for t in s390x-unknown-linux-gnu i686-unknown-linux-gnu; do
+      (cd "$ROOT/becheck" && cargo +nightly miri setup --target $t >>"$ROOT/becheck/setup.log" 2>&1) || \
+        echo "note: no Miri sysroot for $t; that machine of S5 will be skipped" >&2
+    done
     echo "setup ok"
     ;;
   selftest)
